@@ -186,3 +186,16 @@ CLAIMED['C11'] = ('model_checking',
     'Trusted: TLC, the chunk catalogue and formula grammar with their expected token lists, the real Tokenizer (bound by C01) used to '
     're-tokenize. The source reconstruction is a pure function: TLC is enumerator and reference evaluator there (stated as such).',
     TECH)
+CLAIMED['C18'] = ('model_checking',
+    'Index.tla: over 12 keys (mixed case, accented, numeric, symbol and underscore initials, sort@display, quoted special character) on 13 key '
+    'paths of 1-3 levels and three page formats TLC enumerates every sequence of up to 3 \\index entries (and simulates sequences up to 6 / 8), '
+    'checks the machine (IndexEntry ordering with a stable sort, the prefix-merge loop of IndexUtils.digest, the heading loop) against the rule: '
+    'EveryEntryOnceUnderItsPath (tree = GroupBy(path), one page per occurrence in document order), SiblingsSortedByRank, OneGroupPerHeading -- '
+    'for the collation ranks of the collator the code under test actually selected.  Each emitted index is concretised as a document with the '
+    'entries scattered over sections and \\printindex, parsed, and the printindex node compared line by line (display text, sort key, pages with '
+    'see flags), the headings and the column partition.  SplitColumns.tla: every size sequence (<= 5 / 6 entries) x 1-4 columns is checked by '
+    'TLC (ColumnsPartitionInOrder, ExactlyCols) and replayed on the real splitColumns.',
+    'DESIGN.md#c18',
+    'Trusted: TLC, Index.tla/SplitColumns.tla, the concretiser; collation ranks and headings are computed by the harness from the real collator '
+    'and unidecode (and the harness checks the selection of the collator with its own copy of the rule).',
+    TECH)
